@@ -365,6 +365,7 @@ def folded(any_ones, all_ones, all_selected, key, mask):
 
 @contract("rig/routing_table/ordered_covering.py::_Merge.__new__@forbody:0")
 class MergeFoldStep:
+    fragment_head = "for i in entries:"
     """ONE iteration of `for i in entries:`: the entry is folded in and every member folded before stays folded"""
     properties = ("C04",)
     bv = 40
